@@ -113,6 +113,23 @@ pub fn c12_check(ck: &mut Checker, sim: &mut Sim, after_boot: bool) {
                 continue;
             }
         }
+        // a made-up child of the proven tip, adopted by the child fast path
+        let forged_child = ck
+            .cur
+            .as_ref()
+            .map(|(_, t, _)| {
+                !t.honest && t.kind == Kind::SendLastState && (t.note.contains("forged child") || t.note.contains("crafted child"))
+            })
+            .unwrap_or(false);
+        if forged_child && (clause == "tip_not_a_real_block" || clause == "stored_total_difficulty_untruthful") {
+            sim.violate(
+                "C12",
+                "forged_child_of_the_proven_tip_adopted_by_the_fast_path",
+                format!("{} ; {}", detail, ck.cur.as_ref().map(|(_, t, _)| t.note.clone()).unwrap_or_default()),
+            );
+            sim.taint = Some("C12/forged_child_of_the_proven_tip_adopted_by_the_fast_path".into());
+            continue;
+        }
         sim.violate("C12", clause, detail);
     }
     ck.prev_td = Some(td);
@@ -269,7 +286,8 @@ pub fn c15_check(ck: &mut Checker, sim: &mut Sim, session: usize, req: &packed::
                 // collisions of the random draws are legal; bound their probability
                 let delta = (last_n_cfg as f64) / (gap as f64);
                 let dens = 1.0 / (delta * (1.0 / delta).ln() * (1.0 - delta));
-                let range = u256_f64(&boundary).max(1.0);
+                // the sampling ratio is quantised to 10^9 steps (RATIO_SCALE_FACTOR)
+                let range = u256_f64(&boundary).max(1.0).min(1e9);
                 let p = (expected as f64) * (expected as f64) / 2.0 * dens / range * 16.0;
                 if p < 1e-9 {
                     bad.push((
@@ -669,8 +687,9 @@ pub fn c07_check(ck: &mut Checker, sim: &mut Sim) {
                     findings.push((
                         "finalized_without_quorum_agreement",
                         format!(
-                            "check point {} became final (previous final {}), but only {} currently proven peers delivered exactly the finalized values for ({}, {}]; quorum is {}",
-                            i, pm, agree, pm, i, quorum
+                            "check point {} became final (previous final {}), but only {} currently proven peers delivered exactly the finalized values for ({}, {}]; quorum is {}; proven sessions {:?}, delivered indices {:?}",
+                            i, pm, agree, pm, i, quorum, proven,
+                            ck.c07.delivered.iter().map(|(s, d)| (*s, d.keys().cloned().min(), d.keys().cloned().max(), d.get(&i) == values.get(i as usize))).collect::<Vec<_>>()
                         ),
                     ));
                     break;
